@@ -1,5 +1,5 @@
 (* Ops.v — composite operations exposed to the correspondence check (end to end from bytes). *)
-From GQL.model Require Import Base Utf8 Lexer Ast Parser Prog ParseQuery ParseSchema Json Format Schema Walk Rules Rules2 Validate Link Vars.
+From GQL.model Require Import Base Utf8 Lexer Ast Parser Prog ParseQuery ParseSchema Json Format Schema Walk Rules Rules2 Validate Link Vars Path.
 From GQL.gen Require Import Prelude.
 
 Definition dump_json_roundtrip (d : dev) (input : str) : str :=
@@ -187,3 +187,16 @@ Definition dump_argmap_with (d : dev) (pre : pres sdoc) (mode query vars : str) 
       end
     end
   end.
+
+(* ---------------- error paths (C20): text form n<hex>,i<dec>,... ---------------- *)
+Definition parse_path (l : str) : list pelem :=
+  flat_map (fun t => match t with
+                     | 110%N :: r => [PName (unhex r)]
+                     | 105%N :: r => [PIndex (match r with 45%N :: t2 => (- digits_val t2 0)%Z | _ => digits_val r 0 end)]
+                     | _ => []
+                     end) (match l with [] => [] | _ => split_on 44 l [] end).
+
+Definition dump_path_roundtrip (l : str) : str :=
+  let p := parse_path l in
+  let j := marshal_path p in
+  dump_j j ++ 124%N :: match unmarshal_path j with Some q => b "ok " ++ dump_path q | None => b "err" end.
